@@ -26,7 +26,8 @@
    finding of JettonBridgeParams (TlbProofs.impl_ConfigParam79_differs ...).
    The wrappers `_ T = ConfigParam N` (8, 11, 13, 14, 22-25, 28, 44, 71-73) parse as T and return an object of class
    ConfigParamN (Spec/BlockTlb.v: as_class).
-   AccountBlock (inline HashmapAug): C16_AccountBlock at the end of the file.
+   AccountBlock (inline HashmapAug): C16_AccountBlock.  BlockInfo, BlkPrevInfo 0/1, ShardDescr, OutMsg: at the end
+   of the file (C16_OutMsg).
    ShardAccounts (HashmapAugE): tree equality only (TlbProofs.impl_ShardAccounts_is_spec): the library never reads
    the top-level extra of a HashmapAugE (ShardAccounts_extra_unread).
    Findings (tree <> compilation of the faithful layout; TlbProofs.impl_<T>_differs):
@@ -2095,6 +2096,23 @@ Proof. split; [wt_tac|vm_compute; reflexivity]. Qed.
 (* the cell (tb, tr); the snapshot attribute `cell` IS the cell parsed).  All cells are ordinary.     *)
 (* ================================================================================================ *)
 
+(* the fuel bound of a layout, checked by vm_compute (the default conversion is slow on the recursive types) *)
+Local Ltac need_tac := vm_compute; reflexivity.
+Lemma need_TransactionDescr : (need spec_table spec_TransactionDescr <=? 1441)%nat = true. Proof. need_tac. Qed.
+Print Assumptions need_TransactionDescr.
+Lemma need_Transaction : (need spec_table spec_Transaction <=? 1569)%nat = true. Proof. need_tac. Qed.
+Print Assumptions need_Transaction.
+Lemma need_TransactionSplitInstall : (need spec_table spec_TransactionSplitInstall <=? 1432)%nat = true. Proof. need_tac. Qed.
+Print Assumptions need_TransactionSplitInstall.
+Lemma need_TransactionMergeInstall : (need spec_table spec_TransactionMergeInstall <=? 1545)%nat = true. Proof. need_tac. Qed.
+Print Assumptions need_TransactionMergeInstall.
+Lemma need_InMsg : (need spec_table spec_InMsg <=? 1578)%nat = true. Proof. need_tac. Qed.
+Print Assumptions need_InMsg.
+Lemma need_AccountBlock : (need spec_table spec_AccountBlock <=? 1473)%nat = true. Proof. need_tac. Qed.
+Print Assumptions need_AccountBlock.
+Lemma need_OutMsg : (need spec_table spec_OutMsg <=? 3039)%nat = true. Proof. need_tac. Qed.
+Print Assumptions need_OutMsg.
+
 Definition ex_tail_bits : list bool := [true; false].
 Definition ex_tail_refs : list cell := [Cell (-1) [] []].
 (* fill in the snapshot attribute of a value built by mk: the encoding does not depend on it *)
@@ -2241,7 +2259,7 @@ Theorem C16_TransactionDescr : forall ch v tb tr bits refs fuel,
   run_type impl_table fuel "TransactionDescr" [] (Cell (-1) (bits ++ tb) (refs ++ tr)) = Ok (v, mkS tb tr).
 Proof.
   intros ch v tb tr bits refs fuel Hwt Henc Hfuel.
-  exact (C16_generic_ch "TransactionDescr" spec_TransactionDescr 1441 eq_refl eq_refl ch None v tb tr bits refs fuel
+  exact (C16_generic_ch "TransactionDescr" spec_TransactionDescr 1441 eq_refl need_TransactionDescr ch None v tb tr bits refs fuel
            Hwt Henc I Hfuel).
 Qed.
 Print Assumptions C16_TransactionDescr.
@@ -2431,7 +2449,7 @@ Theorem C16_Transaction : forall ch v tb tr bits refs fuel,
   run_type impl_table fuel "Transaction" [] (Cell (-1) (bits ++ tb) (refs ++ tr)) = Ok (v, mkS tb tr).
 Proof.
   intros ch v tb tr bits refs fuel Hwt Henc Hfuel.
-  exact (C16_generic_ch "Transaction" spec_Transaction 1569 eq_refl eq_refl ch (Some (tb, tr)) v tb tr bits refs fuel
+  exact (C16_generic_ch "Transaction" spec_Transaction 1569 eq_refl need_Transaction ch (Some (tb, tr)) v tb tr bits refs fuel
            Hwt Henc eq_refl Hfuel).
 Qed.
 Print Assumptions C16_Transaction.
@@ -2483,7 +2501,7 @@ Theorem C16_TransactionSplitInstall : forall ch v tb tr bits refs fuel,
   run_type impl_table fuel "TransactionSplitInstall" [] (Cell (-1) (bits ++ tb) (refs ++ tr)) = Ok (v, mkS tb tr).
 Proof.
   intros ch v tb tr bits refs fuel Hwt Henc Hfuel.
-  exact (C16_generic_ch "TransactionSplitInstall" spec_TransactionSplitInstall 1432 eq_refl eq_refl ch None v tb tr
+  exact (C16_generic_ch "TransactionSplitInstall" spec_TransactionSplitInstall 1432 eq_refl need_TransactionSplitInstall ch None v tb tr
            bits refs fuel Hwt Henc I Hfuel).
 Qed.
 Theorem C16_TransactionMergeInstall : forall ch v tb tr bits refs fuel,
@@ -2492,7 +2510,7 @@ Theorem C16_TransactionMergeInstall : forall ch v tb tr bits refs fuel,
   run_type impl_table fuel "TransactionMergeInstall" [] (Cell (-1) (bits ++ tb) (refs ++ tr)) = Ok (v, mkS tb tr).
 Proof.
   intros ch v tb tr bits refs fuel Hwt Henc Hfuel.
-  exact (C16_generic_ch "TransactionMergeInstall" spec_TransactionMergeInstall 1545 eq_refl eq_refl ch None v tb tr
+  exact (C16_generic_ch "TransactionMergeInstall" spec_TransactionMergeInstall 1545 eq_refl need_TransactionMergeInstall ch None v tb tr
            bits refs fuel Hwt Henc I Hfuel).
 Qed.
 Print Assumptions C16_TransactionSplitInstall.
@@ -2548,7 +2566,7 @@ Theorem C16_InMsg : forall ch v tb tr bits refs fuel,
   run_type impl_table fuel "InMsg" [] (Cell (-1) (bits ++ tb) (refs ++ tr)) = Ok (v, mkS tb tr).
 Proof.
   intros ch v tb tr bits refs fuel Hwt Henc Hfuel.
-  exact (C16_generic_ch "InMsg" spec_InMsg 1578 eq_refl eq_refl ch None v tb tr bits refs fuel Hwt Henc I Hfuel).
+  exact (C16_generic_ch "InMsg" spec_InMsg 1578 eq_refl need_InMsg ch None v tb tr bits refs fuel Hwt Henc I Hfuel).
 Qed.
 Print Assumptions C16_InMsg.
 
@@ -2606,7 +2624,7 @@ Theorem C16_AccountBlock : forall ch v tb tr bits refs fuel,
   run_type impl_table fuel "AccountBlock" [] (Cell (-1) (bits ++ tb) (refs ++ tr)) = Ok (v, mkS tb tr).
 Proof.
   intros ch v tb tr bits refs fuel Hwt Henc Hfuel.
-  exact (C16_generic_ch "AccountBlock" spec_AccountBlock 1473 eq_refl eq_refl ch None v tb tr bits refs fuel
+  exact (C16_generic_ch "AccountBlock" spec_AccountBlock 1473 eq_refl need_AccountBlock ch None v tb tr bits refs fuel
            Hwt Henc I Hfuel).
 Qed.
 Print Assumptions C16_AccountBlock.
@@ -2643,3 +2661,182 @@ Example ShardAccounts_extra_unread :
   = Ok (PAugDict [] [PSlice (mkS [false; false; false; true; true; false; false; false; false; false] [])],
         mkS [false; false; false; true; true; false; false; false; false; false] []).
 Proof. vm_compute. reflexivity. Qed.
+
+(* ---- BlkPrevInfo 0 / BlkPrevInfo 1 (a type with a parameter: the table is keyed by (name, arguments)) ---- *)
+Theorem C16_BlkPrevInfo_0 : forall v tb tr bits refs fuel,
+  wt spec_table spec_BlkPrevInfo_0 v -> encode spec_table spec_BlkPrevInfo_0 v = Ok (bits, refs) -> (13 <= fuel)%nat ->
+  run_type impl_table fuel "BlkPrevInfo" [0] (Cell (-1) (bits ++ tb) (refs ++ tr)) = Ok (v, mkS tb tr).
+Proof.
+  intros v tb tr bits refs fuel Hwt Henc Hfuel.
+  exact (C16_generic_args "BlkPrevInfo" [0] spec_BlkPrevInfo_0 13 eq_refl eq_refl ch_ref None v tb tr bits refs fuel
+           Hwt Henc I Hfuel).
+Qed.
+Print Assumptions C16_BlkPrevInfo_0.
+Theorem C16_BlkPrevInfo_1 : forall v tb tr bits refs fuel,
+  wt spec_table spec_BlkPrevInfo_1 v -> encode spec_table spec_BlkPrevInfo_1 v = Ok (bits, refs) -> (24 <= fuel)%nat ->
+  run_type impl_table fuel "BlkPrevInfo" [1] (Cell (-1) (bits ++ tb) (refs ++ tr)) = Ok (v, mkS tb tr).
+Proof.
+  intros v tb tr bits refs fuel Hwt Henc Hfuel.
+  exact (C16_generic_args "BlkPrevInfo" [1] spec_BlkPrevInfo_1 24 eq_refl eq_refl ch_ref None v tb tr bits refs fuel
+           Hwt Henc I Hfuel).
+Qed.
+Print Assumptions C16_BlkPrevInfo_1.
+
+Definition ex_BlkPrevInfo_0 : pv :=
+  PObj "BlkPrevInfo" [("prev"%string, ex_ExtBlkRef); ("type_"%string, PStr "prev_blk_info")].
+Definition ex_BlkPrevInfo_1 : pv :=
+  PObj "BlkPrevInfo" [("prev1"%string, ex_ExtBlkRef); ("prev2"%string, ex_ExtBlkRef);
+    ("type_"%string, PStr "prev_blks_info")].
+Example C16_BlkPrevInfo_ex :
+  (wt spec_table spec_BlkPrevInfo_0 ex_BlkPrevInfo_0 /\
+   match encode spec_table spec_BlkPrevInfo_0 ex_BlkPrevInfo_0 with
+   | Ok (bits, refs) =>
+       run_type impl_table 13 "BlkPrevInfo" [0] (Cell (-1) (bits ++ [true; false]) (refs ++ [Cell (-1) [] []]))
+       = Ok (ex_BlkPrevInfo_0, mkS [true; false] [Cell (-1) [] []])
+   | Err _ => False
+   end) /\
+  (wt spec_table spec_BlkPrevInfo_1 ex_BlkPrevInfo_1 /\
+   match encode spec_table spec_BlkPrevInfo_1 ex_BlkPrevInfo_1 with
+   | Ok (bits, refs) =>
+       run_type impl_table 24 "BlkPrevInfo" [1] (Cell (-1) (bits ++ [true; false]) (refs ++ [Cell (-1) [] []]))
+       = Ok (ex_BlkPrevInfo_1, mkS [true; false] [Cell (-1) [] []])
+   | Err _ => False
+   end).
+Proof. split; (split; [wt_tac|vm_compute; reflexivity]). Qed.
+
+(* ---- BlockInfo (conditional fields gen_software:flags . 0?.., master_ref:not_master?.., prev_vert_ref:
+   vert_seqno_incr?..; prev_ref:^(BlkPrevInfo after_merge); the constraints { flags <= 1 } and
+   { vert_seq_no >= vert_seqno_incr }) ---- *)
+Theorem C16_BlockInfo : forall v tb tr bits refs fuel,
+  wt spec_table spec_BlockInfo v -> encode spec_table spec_BlockInfo v = Ok (bits, refs) -> (185 <= fuel)%nat ->
+  run_type impl_table fuel "BlockInfo" [] (Cell (-1) (bits ++ tb) (refs ++ tr)) = Ok (v, mkS tb tr).
+Proof. exact (C16_generic "BlockInfo" spec_BlockInfo 185 eq_refl eq_refl). Qed.
+Print Assumptions C16_BlockInfo.
+Theorem C16_BlockInfo_exotic : forall ty bits refs fuel, ty <> (-1) -> (4 <= fuel)%nat ->
+  run_type impl_table fuel "BlockInfo" [] (Cell ty bits refs) = Ok (PNone, mkS bits refs).
+Proof. intros ty bits refs fuel. exact (run_type_exotic "BlockInfo" spec_BlockInfo ty bits refs fuel eq_refl). Qed.
+Print Assumptions C16_BlockInfo_exotic.
+
+Definition mk_BlockInfo (not_master after_merge incr : bool) (flags vert : Z) (soft master prev vprev : pv) : pv :=
+  PObj "BlockInfo" [("after_merge"%string, PBool after_merge); ("after_split"%string, PBool true);
+    ("before_split"%string, PBool false); ("end_lt"%string, PInt 350690); ("flags"%string, PInt flags);
+    ("gen_catchain_seqno"%string, PInt 954413); ("gen_software"%string, soft); ("gen_utime"%string, PInt 954413);
+    ("gen_validator_list_hash_short"%string, PInt 954413); ("key_block"%string, PBool true);
+    ("master_ref"%string, master); ("min_ref_mc_seqno"%string, PInt 954413); ("not_master"%string, PBool not_master);
+    ("prev_key_block_seqno"%string, PInt 954413); ("prev_ref"%string, prev); ("prev_vert_ref"%string, vprev);
+    ("seqno"%string, PInt 954413); ("shard"%string, ex_ShardIdent); ("start_lt"%string, PInt 350686);
+    ("version"%string, PInt 0); ("vert_seqno"%string, PInt vert); ("vert_seqno_incr"%string, PBool incr);
+    ("want_merge"%string, PBool false); ("want_split"%string, PBool true)].
+(* every optional part present (and two previous blocks), resp. absent *)
+Definition ex_BlockInfo_full : pv :=
+  mk_BlockInfo true true true 1 1 ex_GlobalVersion ex_BlkMasterInfo ex_BlkPrevInfo_1 ex_BlkPrevInfo_0.
+Definition ex_BlockInfo_bare : pv := mk_BlockInfo false false false 0 0 PNone PNone ex_BlkPrevInfo_0 PNone.
+Example C16_BlockInfo_ex :
+  Forall (fun v =>
+    wt spec_table spec_BlockInfo v /\
+    match encode spec_table spec_BlockInfo v with
+    | Ok (bits, refs) =>
+        run_type impl_table 185 "BlockInfo" [] (Cell (-1) (bits ++ [true; false]) (refs ++ [Cell (-1) [] []]))
+        = Ok (v, mkS [true; false] [Cell (-1) [] []])
+    | Err _ => False
+    end)
+    [ex_BlockInfo_full; ex_BlockInfo_bare].
+Proof. repeat (apply Forall_cons; [split; [wt_tac|vm_compute; reflexivity]|]). apply Forall_nil. Qed.
+
+(* ---- ShardDescr (shard_descr#b, shard_descr_new#a) ---- *)
+(* The object does not record which constructor built it: ch v tells the encoder (false: shard_descr#b, the two
+   CurrencyCollections inline; true: shard_descr_new#a, in a reference); for every ch. *)
+Theorem C16_ShardDescr : forall ch v tb tr bits refs fuel,
+  wt_in ch spec_table spec_ShardDescr None v -> encode_ch ch spec_table spec_ShardDescr v = Ok (bits, refs) ->
+  (73 <= fuel)%nat ->
+  run_type impl_table fuel "ShardDescr" [] (Cell (-1) (bits ++ tb) (refs ++ tr)) = Ok (v, mkS tb tr).
+Proof.
+  intros ch v tb tr bits refs fuel Hwt Henc Hfuel.
+  exact (C16_generic_ch "ShardDescr" spec_ShardDescr 73 eq_refl eq_refl ch None v tb tr bits refs fuel Hwt Henc I Hfuel).
+Qed.
+Print Assumptions C16_ShardDescr.
+
+Definition ex_ShardDescr : pv :=
+  PObj "ShardDescr" [("before_merge"%string, PBool false); ("before_split"%string, PBool true);
+    ("end_lt"%string, PInt 350690); ("fees_collected"%string, ex_cc_extra 5); ("file_hash"%string, PBytes bytes32);
+    ("flags"%string, PInt 0); ("funds_created"%string, ex_cc 6); ("gen_utime"%string, PInt 954413);
+    ("min_ref_mc_seqno"%string, PInt 954413); ("next_catchain_seqno"%string, PInt 954413);
+    ("next_validator_shard"%string, PInt 9223372036854775808); ("nx_cc_updated"%string, PBool true);
+    ("reg_mc_seqno"%string, PInt 954413); ("root_hash"%string, PBytes bytes32); ("seq_no"%string, PInt 954413);
+    ("split_merge_at"%string, ex_FutureSplitMerge); ("start_lt"%string, PInt 350686);
+    ("want_merge"%string, PBool false); ("want_split"%string, PBool true)].
+Example C16_ShardDescr_ex :
+  Forall (fun ch =>
+    wt_in ch spec_table spec_ShardDescr None ex_ShardDescr /\
+    match encode_ch ch spec_table spec_ShardDescr ex_ShardDescr with
+    | Ok (bits, refs) =>
+        run_type impl_table 73 "ShardDescr" [] (Cell (-1) (bits ++ [true; false]) (refs ++ [Cell (-1) [] []]))
+        = Ok (ex_ShardDescr, mkS [true; false] [Cell (-1) [] []])
+    | Err _ => False
+    end)
+    [ch_ref; ch_inline].
+Proof. repeat (apply Forall_cons; [split; [wt_tac|vm_compute; reflexivity]|]). apply Forall_nil. Qed.
+(* the two encodings differ: #a has the reference *)
+Example C16_ShardDescr_ex_refs :
+  match encode_ch ch_ref spec_table spec_ShardDescr ex_ShardDescr, encode_ch ch_inline spec_table spec_ShardDescr ex_ShardDescr with
+  | Ok (b1, r1), Ok (b2, r2) => firstn 4 b1 = [true; false; true; false] /\ firstn 4 b2 = [true; false; true; true]
+                                /\ List.length r1 = 1%nat /\ List.length r2 = 1%nat
+  | _, _ => False
+  end.
+Proof. vm_compute. repeat split. Qed.
+
+(* ---- OutMsg (all ten constructors; the library used to label msg_export_deq_short$1101 "msg_export_deq":
+   FINDING, repaired) ---- *)
+Theorem C16_OutMsg : forall ch v tb tr bits refs fuel,
+  wt_in ch spec_table spec_OutMsg None v -> encode_ch ch spec_table spec_OutMsg v = Ok (bits, refs) ->
+  (3039 <= fuel)%nat ->
+  run_type impl_table fuel "OutMsg" [] (Cell (-1) (bits ++ tb) (refs ++ tr)) = Ok (v, mkS tb tr).
+Proof.
+  intros ch v tb tr bits refs fuel Hwt Henc Hfuel.
+  exact (C16_generic_ch "OutMsg" spec_OutMsg 3039 eq_refl need_OutMsg ch None v tb tr bits refs fuel Hwt Henc I Hfuel).
+Qed.
+Print Assumptions C16_OutMsg.
+
+Definition ex_OutMsg_ext : pv :=
+  PObj "OutMsg" [("msg"%string, ex_MessageAny_in); ("out_msg"%string, PNone); ("transaction"%string, ex_Transaction_ref);
+    ("type_"%string, PStr "msg_export_ext")].
+Definition ex_OutMsg_imm : pv :=
+  PObj "OutMsg" [("msg"%string, PNone); ("out_msg"%string, ex_MsgEnvelope); ("reimport"%string, ex_InMsg_imm);
+    ("transaction"%string, ex_Transaction_ref2); ("type_"%string, PStr "msg_export_imm")].
+Definition ex_OutMsg_new : pv :=
+  PObj "OutMsg" [("msg"%string, PNone); ("out_msg"%string, ex_MsgEnvelope_v1); ("transaction"%string, ex_Transaction_ref2);
+    ("type_"%string, PStr "msg_export_new")].
+Definition ex_OutMsg_tr : pv :=
+  PObj "OutMsg" [("imported"%string, ex_InMsg_discard_tr); ("msg"%string, PNone); ("out_msg"%string, ex_MsgEnvelope);
+    ("transaction"%string, PNone); ("type_"%string, PStr "msg_export_tr")].
+Definition ex_OutMsg_deq_imm : pv :=
+  PObj "OutMsg" [("msg"%string, PNone); ("out_msg"%string, ex_MsgEnvelope); ("reimport"%string, ex_InMsg_tr);
+    ("transaction"%string, PNone); ("type_"%string, PStr "msg_export_deq_imm")].
+Definition ex_OutMsg_tr_req : pv :=
+  PObj "OutMsg" [("imported"%string, ex_InMsg_deferred_tr); ("msg"%string, PNone); ("out_msg"%string, ex_MsgEnvelope_v1);
+    ("transaction"%string, PNone); ("type_"%string, PStr "msg_export_tr_req")].
+Definition ex_OutMsg_deq : pv :=
+  PObj "OutMsg" [("import_block_lt"%string, PInt 350686); ("msg"%string, PNone); ("out_msg"%string, ex_MsgEnvelope);
+    ("transaction"%string, PNone); ("type_"%string, PStr "msg_export_deq")].
+Definition ex_OutMsg_deq_short : pv :=
+  PObj "OutMsg" [("import_block_lt"%string, PInt 350686); ("msg"%string, PNone); ("msg_env_hash"%string, PBytes bytes32);
+    ("next_addr_pfx"%string, PInt 350686); ("next_workchain"%string, PInt (-1)); ("out_msg"%string, PNone);
+    ("transaction"%string, PNone); ("type_"%string, PStr "msg_export_deq_short")].
+Definition ex_OutMsg_new_defer : pv :=
+  PObj "OutMsg" [("msg"%string, PNone); ("out_msg"%string, ex_MsgEnvelope); ("transaction"%string, ex_Transaction_ref2);
+    ("type_"%string, PStr "msg_export_new_defer")].
+Definition ex_OutMsg_deferred_tr : pv :=
+  PObj "OutMsg" [("imported"%string, ex_InMsg_fin); ("msg"%string, PNone); ("out_msg"%string, ex_MsgEnvelope_v1);
+    ("transaction"%string, PNone); ("type_"%string, PStr "msg_export_deferred_tr")].
+Example C16_OutMsg_ex :
+  Forall (fun v =>
+    wt_in ch_mix spec_table spec_OutMsg None v /\
+    match encode_ch ch_mix spec_table spec_OutMsg v with
+    | Ok (bits, refs) =>
+        run_type impl_table 3039 "OutMsg" [] (Cell (-1) (bits ++ [true; false]) (refs ++ [Cell (-1) [] []]))
+        = Ok (v, mkS [true; false] [Cell (-1) [] []])
+    | Err _ => False
+    end)
+    [ex_OutMsg_ext; ex_OutMsg_imm; ex_OutMsg_new; ex_OutMsg_tr; ex_OutMsg_deq_imm; ex_OutMsg_tr_req; ex_OutMsg_deq;
+     ex_OutMsg_deq_short; ex_OutMsg_new_defer; ex_OutMsg_deferred_tr].
+Proof. repeat (apply Forall_cons; [split; [wt_tac|vm_compute; reflexivity]|]). apply Forall_nil. Qed.
